@@ -4,6 +4,7 @@ The released (0.9 = pinned tree) format is written down below as terms over the
 session's fields; the writer's dict term must equal it and the reader, evaluated on
 an opaque blob, must access exactly those keys with the inverse decodings."""
 from ..terms import Const, Sym, App, Obj, DictV, mk_app, is_app, show, subterms
+from ..terms import V as V_
 from .. import session
 from ..session import H
 
@@ -79,6 +80,8 @@ def check(ctx, world):
                         ok = d[k] == want[k]
                         ctx.ob("W-value", "%s[%s]" % (cname, k), ok, "value = %s" % show(want[k], maxdepth=5) if ok else
                                "value of %r is %s, released format has %s" % (k, show(d[k], maxdepth=6), show(want[k], maxdepth=6)), so.site)
+            # ---- reader on released-format objects with concrete keys in every key order (R-order)
+            _reader_key_orders(ctx, world, ev, cm, cname, G)
             # ---- reader on an opaque blob
             blob = Sym("blob", "bytes")
             st = cm.st_new.fork()
@@ -135,3 +138,102 @@ def check(ctx, world):
                 fp_ok = any(is_app(t, "Eq", "NotEq") and ((t.f == "Eq") == p) and {item("hashed_params"), fp} == set(t.args) for t, p in conds)
                 ctx.ob("R-fingerprint", cname, fp_ok, "d['hashed_params'] must equal the recomputed released-recipe fingerprint" if fp_ok else
                        "reader does not compare d['hashed_params'] with the fingerprint of the released recipe", o.site)
+
+
+def _orders(keys, tier):
+    import itertools
+    keys = tuple(keys)
+    if tier == "thorough":
+        return list(itertools.permutations(keys))
+    out = [keys, tuple(reversed(keys))]
+    out += [keys[i:] + keys[:i] for i in range(1, len(keys))]
+    for i in range(len(keys) - 1):
+        l = list(keys)
+        l[i], l[i + 1] = l[i + 1], l[i]
+        out.append(tuple(l))
+    seen, res = set(), []
+    for o in out:
+        if o not in seen:
+            seen.add(o)
+            res.append(o)
+    return res
+
+
+def _fieldsig(ev, o):
+    """Field map of the returned instance, comparable across evaluations (heap references by class name)."""
+    from ..terms import FuncV, ClassV
+    f = o.state.heap[o.value.oid]
+    sig = {}
+    for k, v in f.items():
+        if isinstance(v, Obj):
+            sig[k] = ("obj", v.cls.name)
+        elif isinstance(v, (FuncV, ClassV)):
+            sig[k] = ("callable", getattr(v, "name", None) or getattr(getattr(v, "node", None), "name", "?"))
+        else:
+            sig[k] = v
+    return sig
+
+
+def _reader_key_orders(ctx, world, ev, cm, cname, G):
+    """'regardless of key order': the stored JSON object is given to the reader with the released keys bound to
+    arbitrary strings, once per key order (quick: identity, reversal, rotations, adjacent transpositions; thorough:
+    every permutation).  Every order must give the same returning paths - same fields of the restored instance,
+    same conditions on the stored values - and the fields must be the released decodings of the values stored
+    *under their own key*.  Decided on concrete keys, so it also covers readers that iterate the parsed object."""
+    keys = KEYS[cname]
+    vals = dict((k, Sym("stored_" + k, "str")) for k in keys)
+    wantf = {cm.syms["password"]: mk_app("unhex", (vals["password"],))}
+    for k in keys:
+        if k in ID_PARAM:
+            wantf[cm.syms[ID_PARAM[k]]] = mk_app("unhex", (vals[k],))
+    want_scalar = mk_app(".bytes_to_scalar", (G, mk_app("unhex", (vals["xy_scalar"],))))
+    ref = None
+    n = 0
+    fs = cm.cls.lookup("from_serialized")
+    fsite = (fs[2].mod.path, fs[1].lineno, "from_serialized") if fs and fs[0] == "func" and hasattr(fs[2], "mod") and hasattr(fs[2].mod, "path") else None
+    for order in _orders(keys, ctx.tier):
+        D = DictV([(k, vals[k]) for k in order])
+        blob = mk_app(".encode", (mk_app("json.dumps", (D,)), Const("ascii")))
+        st = cm.st_new.fork()
+        base = len(st.pc)
+        outs = session.restore(world, ev, cm.cls, blob, st, cm.params)
+        rets = [o for o in session.rets(outs) if isinstance(o.value, Obj)]
+        n += 1
+        inst = "%s keys in order %s" % (cname, ",".join(order))
+        if not rets:
+            ctx.ob("R-order", inst, False, "from_serialized returns no instance for a released-format object whose keys come in this order "
+                   "(outcomes: %s)" % sorted({str(o.exc) if o.kind == "raise" else "returns %s" % type(o.value).__name__ for o in outs}),
+                   next((o.site for o in outs if o.site), None))
+            continue
+        sigs = sorted(((_fieldsig(ev, o), frozenset((t, p) for (t, p, _) in o.state.pc[base:])) for o in rets),
+                      key=lambda x: sorted((k, str(getattr(v, "_key", v))) for k, v in x[0].items()))
+        if ref is None:
+            ref = (order, sigs)
+            # the reference order itself must decode every field from the value stored under its own key
+            for sig, _pc in sigs:
+                for k, v in sorted(cm.fields_new.items()):
+                    if v in wantf:
+                        ok = sig.get(k) == wantf[v]
+                        ctx.ob("R-order-field", "%s.%s" % (cname, k), ok, "restored from %s" % show(wantf[v], maxdepth=4) if ok else
+                               "field %s is restored as %s, released format requires %s" % (k, show(sig.get(k), maxdepth=5) if isinstance(sig.get(k), V_) else sig.get(k), show(wantf[v], maxdepth=5)), rets[0].site)
+                ok = want_scalar in [v for v in sig.values() if isinstance(v, V_)]
+                ctx.ob("R-order-field", "%s scalar" % cname, ok, "scalar = group.bytes_to_scalar(unhexlify(stored xy_scalar))" if ok else
+                       "no field of the restored instance is group.bytes_to_scalar(unhexlify(stored xy_scalar))", rets[0].site)
+            continue
+        ok = len(sigs) == len(ref[1]) and all(a[0] == b[0] and a[1] == b[1] for a, b in zip(sigs, ref[1]))
+        detail = "same restored instance as with the released key order"
+        if not ok:
+            diffs = []
+            for a, b in zip(sigs, ref[1]):
+                for k in sorted(set(a[0]) | set(b[0])):
+                    if a[0].get(k) != b[0].get(k):
+                        va, vb = a[0].get(k), b[0].get(k)
+                        diffs.append("%s = %s (released order: %s)" % (k, show(va, maxdepth=4) if isinstance(va, V_) else va,
+                                                                       show(vb, maxdepth=4) if isinstance(vb, V_) else vb))
+                if a[1] != b[1]:
+                    diffs.append("conditions on the stored values differ")
+            if len(sigs) != len(ref[1]):
+                diffs.append("%d returning paths instead of %d" % (len(sigs), len(ref[1])))
+            detail = "the restored instance depends on the order of the keys in the stored JSON object: " + "; ".join(diffs[:4])
+        ctx.ob("R-order", inst, ok, detail, rets[0].site or fsite)
+    ctx.count("reader evaluations on key orders", n)
